@@ -44,12 +44,43 @@ type OpResult struct {
 }
 
 // canon builds a readable canonical encoding of results.
-type canon struct{ b []byte }
+type canon struct {
+	b      []byte
+	h      uint64 // hash of the folded tail, 0 if nothing was folded
+	folded int    // bytes folded into h
+}
 
+const (
+	canonFoldAt = 32 << 10
+	canonKeep   = 1 << 10
+)
+
+// sep separates two items. A result that grows beyond canonFoldAt (the callback
+// trace of a search over thousands of children) keeps its first canonKeep bytes
+// verbatim and folds the rest into a running hash: equality of two results is
+// then equality of prefix, folded length and hash.
 func (c *canon) sep() {
+	if len(c.b) > canonFoldAt {
+		c.h = fnv64(c.h, c.b[canonKeep:])
+		c.folded += len(c.b) - canonKeep
+		c.b = c.b[:canonKeep]
+	}
 	if len(c.b) > 0 {
 		c.b = append(c.b, ' ')
 	}
+}
+
+// bytes returns the final canonical encoding.
+func (c *canon) bytes() []byte {
+	if c.folded == 0 {
+		return c.b
+	}
+	if len(c.b) > canonKeep {
+		c.h = fnv64(c.h, c.b[canonKeep:])
+		c.folded += len(c.b) - canonKeep
+		c.b = c.b[:canonKeep]
+	}
+	return append(c.b, fmt.Sprintf(" ...(+%d bytes folded, fnv=%016x)", c.folded, c.h)...)
 }
 func (c *canon) B(v bool) {
 	c.sep()
@@ -123,6 +154,7 @@ func fnv64s(h uint64, s string) uint64 {
 
 // Str encodes a string: verbatim when short, else prefix + length + hash.
 func (c *canon) Str(s string) {
+	verifsim.Charge(len(s) / 32)
 	c.sep()
 	if len(s) <= 200 {
 		c.b = strconv.AppendQuote(c.b, s)
@@ -219,6 +251,30 @@ type caller struct {
 	pool []geojson.Object
 	task int
 	sim  bool // controlled or free simulation (Goexit allowed), false = solo
+	// retained counts the bytes of returned buffers this caller keeps for the
+	// end-of-run re-read; beyond retainCap nothing more is kept (a marathon of
+	// serialisations of a large object would otherwise hold gigabytes). Per
+	// caller, not shared: shared harness state would need synchronisation, and
+	// that would create happens-before edges between tasks.
+	retained int
+}
+
+const retainCap = 24 << 20
+
+func (x *caller) keepStr(res *OpResult, s string) {
+	if x.retained+len(s) > retainCap {
+		return
+	}
+	x.retained += len(s)
+	res.keepS = append(res.keepS, s)
+}
+
+func (x *caller) keepBytes(res *OpResult, b []byte) {
+	if x.retained+len(b) > retainCap {
+		return
+	}
+	x.retained += len(b)
+	res.keepB = append(res.keepB, b)
 }
 
 func resolve(pool []geojson.Object, idx int, path []int) geojson.Object {
@@ -313,6 +369,7 @@ type cbState struct {
 func (s *cbState) visit() bool {
 	s.n++
 	s.res.CBCalls++
+	verifsim.Charge(30)
 	verifsim.Yield(SiteCallback)
 	cb := s.cb
 	if cb == nil {
@@ -362,7 +419,7 @@ func (x *caller) run(res *OpResult, op *Op, depth int) {
 	c := &canon{}
 	done := false
 	defer func() {
-		res.Res = c.b
+		res.Res = c.bytes()
 		res.End = verifsim.Steps()
 		if r := recover(); r != nil {
 			switch v := r.(type) {
@@ -372,11 +429,11 @@ func (x *caller) run(res *OpResult, op *Op, depth int) {
 			case cbPanic:
 				res.Status = StCBPanic
 				c.Tag("panic:cb@" + strconv.Itoa(v.k))
-				res.Res = c.b
+				res.Res = c.bytes()
 			default:
 				res.Status = StPanic
 				c.Tag("panic:" + fmt.Sprint(r))
-				res.Res = c.b
+				res.Res = c.bytes()
 			}
 			return
 		}
@@ -419,20 +476,20 @@ func (x *caller) dispatch(op *Op, depth int, c *canon, res *OpResult) {
 	case "JSON":
 		s := o.JSON()
 		c.Str(s)
-		res.keepS = append(res.keepS, s)
+		x.keepStr(res, s)
 	case "String":
 		s := o.String()
 		c.Str(s)
-		res.keepS = append(res.keepS, s)
+		x.keepStr(res, s)
 	case "Members":
 		s := o.Members()
 		c.Str(s)
-		res.keepS = append(res.keepS, s)
+		x.keepStr(res, s)
 	case "MarshalJSON":
 		b, err := o.MarshalJSON()
 		c.Str(string(b))
 		c.B(err == nil)
-		res.keepB = append(res.keepB, b)
+		x.keepBytes(res, b)
 	case "AppendJSON":
 		capn := op.Cap
 		if capn < len(op.Prefix) {
@@ -442,7 +499,7 @@ func (x *caller) dispatch(op *Op, depth int, c *canon, res *OpResult) {
 		copy(dst, op.Prefix)
 		out := o.AppendJSON(dst)
 		c.Str(string(out))
-		res.keepB = append(res.keepB, out)
+		x.keepBytes(res, out)
 	case "Contains":
 		c.B(o.Contains(needArg()))
 	case "Within":
@@ -565,7 +622,7 @@ func (x *caller) typeSpecific(o geojson.Object, op *Op, c *canon, res *OpResult)
 		c.Obj(p)
 		s := p.JSON()
 		c.Str(s)
-		res.keepS = append(res.keepS, s)
+		x.keepStr(res, s)
 	case *geojson.Polygon:
 		c.Poly(v.Base())
 		c.B(v.HasExtra())
@@ -662,7 +719,7 @@ func (x *caller) geomOp(o geojson.Object, op *Op, c *canon, res *OpResult, cb *c
 				c.Tag("bytes")
 				c.I(len(idx))
 				c.Tag(strconv.FormatUint(fnv64(0, idx), 16))
-				res.keepB = append(res.keepB, idx)
+				x.keepBytes(res, idx)
 			default:
 				c.Tag(fmt.Sprintf("%T", idx))
 			}
